@@ -20,7 +20,8 @@ from .. import core
 PROPERTY = "C18"
 LEVEL = "fault_enumeration"
 EXHAUSTIVE = True
-RULE = ("exhaustive over {16 subsets of save_output} x {local, non-local environment} x {nonparametric, gaussian, "
+RULE = ("(model_parameters handed over as a fresh copy per run / as ONE dict object reused by all 16 runs of the "
+        "process / left out) exhaustive over {16 subsets of save_output} x {local, non-local environment} x {nonparametric, gaussian, "
         "bootstrap} x {minimum-units gate passes, fails} x {with, without national summary (bootstrap)}; each "
         "environment runs in a fresh subprocess with its own scratch cwd. Trace = sequence of put_object calls on a "
         "recording S3 client + audit events (file opens for writing, mkdir, rename, socket connects) + outcome; "
@@ -38,16 +39,29 @@ OPTIONS = ["results", "data", "config", "conformalization"]
 SUBSETS = [list(c) for r in range(5) for c in itertools.combinations(OPTIONS, r)]
 ENVS = {"local": dict(APP_ENV="local", DATA_ENV="dev"), "prod": dict(APP_ENV="prod", DATA_ENV="prod")}
 BUCKET, ROOT = "verif-bucket", "verif-root"
+ARG_MODES = ["copied", "shared", "omitted"]
 
 
 def cases(tier, seed):
     out = []
     n_el = 1 if tier == "quick" else 5
+    k = 0
     for e in range(n_el):
         for env in ENVS:
             for est in ("nonparametric", "gaussian", "bootstrap"):
                 for gate in ("pass", "fail"):
-                    out.append(dict(seed=seed, i=e, env=env, estimator=est, gate=gate))
+                    # how the caller hands over model_parameters across the 16 runs of one process: a fresh copy per
+                    # run, ONE dict object reused for every run, or (no parameters needed) the argument left out
+                    args = ARG_MODES[(k + e) % len(ARG_MODES)]
+                    if est == "bootstrap" and args == "omitted":
+                        args = "shared"  # the bootstrap case needs B / lambda_ to stay cheap
+                    out.append(dict(seed=seed, i=e, env=env, estimator=est, gate=gate, args=args))
+                    k += 1
+    if tier == "quick":  # make sure the gaussian / non-local / gate-passes child exists in every argument mode
+        for args in ARG_MODES:
+            if not any(s_["estimator"] == "gaussian" and s_["env"] == "prod" and s_["gate"] == "pass" and s_["args"] == args
+                       for s_ in out):
+                out.append(dict(seed=seed, i=0, env="prod", estimator="gaussian", gate="pass", args=args))
     return out
 
 
@@ -81,7 +95,8 @@ def run_case(spec, inputs=None):
         out["counters"]["file_events"] = out["counters"].get("file_events", 0) + len(tr["files"])
         out["counters"][f"outcome_{tr['outcome']}"] = out["counters"].get(f"outcome_{tr['outcome']}", 0) + 1
         if tr["puts"] or tr["files"] or tr["outcome"] == "not_enough":
-            sigs.append([spec["env"], spec["estimator"], spec["gate"], tr["save_output"], tr["summary"]])
+            sigs.append([spec["env"], spec["estimator"], spec["gate"], tr["save_output"], tr["summary"],
+                         spec.get("args", "copied")])
     out["sets"]["traces"] = sigs
     out["sigs"] = sigs
     out["nontrivial"] = bool(sigs)
@@ -102,7 +117,8 @@ def check_trace(tr, spec):
     env = spec["env"]
     est = spec["estimator"]
     data_env = ENVS[env]["DATA_ENV"]
-    where = f"env={env} estimator={est} gate={spec['gate']} save_output={sorted(so)} summary={tr['summary']}"
+    where = (f"env={env} estimator={est} gate={spec['gate']} save_output={sorted(so)} summary={tr['summary']} "
+             f"model_parameters={spec.get('args', 'copied')}")
 
     def V(key, msg, **w):
         vs.append(dict(key=key, msg=f"{msg} [{where}]", witness=dict(trace=dict(puts=[p["Key"] for p in tr["puts"]],
@@ -258,7 +274,7 @@ def child(spec):
 
     est = spec["estimator"]
     o = dict(estimator=est, el_n_units=60, el_n_states=2, feed_n_unexpected=1, feed_n_missing=0, threshold=100,
-             policy="drop", alphas=[0.7, 0.9], aggregates=["postal_code", "county_fips", "unit"],
+             policy="drop", alphas=[0.7, 0.9], aggregates=["postal_code", "county_fips", "unit"], allow_geo_county=False,
              feed_frac_reporting=0.75 if spec["gate"] == "pass" else 0.04, district=False, n_estimands=1,
              mp=dict(fit_turnout_outlier_model=False, fit_margin_outlier_model=False), fixed_effects={})
     if est == "bootstrap":
@@ -266,10 +282,31 @@ def child(spec):
         o["lambda_"] = 1.0
     el, feed, status, call = cases_mod.build(spec["seed"], PROPERTY, 1000 * spec["i"] + 1, o)
     call["model_parameters"].pop("unit_blocklist", None)
+    # make the gate outcome deterministic: exactly 3 baseline units at 100 % (fail) / at least 45 (pass)
+    base_ids = set(el.pre[el.pre.baseline_turnout > 0].geographic_unit_fips)
+    want = 3 if spec["gate"] == "fail" else 45
+    n_rep = 0
+    for j in range(len(feed)):
+        if feed.loc[j, "geographic_unit_fips"] not in base_ids:
+            continue
+        if n_rep < want:
+            feed.loc[j, "percent_expected_vote"] = 100.0
+            if feed.loc[j, "results_turnout"] <= 0:
+                b = el.pre[el.pre.geographic_unit_fips == feed.loc[j, "geographic_unit_fips"]].iloc[0]
+                feed.loc[j, ["results_turnout", "results_dem", "results_gop"]] = [int(b.baseline_turnout), int(b.baseline_dem), int(b.baseline_gop)]
+            n_rep += 1
+        elif spec["gate"] == "fail":
+            feed.loc[j, "percent_expected_vote"] = 0.0
+    call["model_parameters"].update(turnout_factor_lower=0.0, turnout_factor_upper=1e9)
     traces = []
+    shared_dict = copy.deepcopy(call["model_parameters"])
+    if spec.get("args") == "omitted" and spec["gate"] == "fail":
+        pass  # defaults (outlier models on) only lower the number of modelled units further
     variants = [(so, False) for so in SUBSETS]
     if est == "bootstrap":
         variants += [(so, True) for so in SUBSETS]
+    if spec["i"] % 2 == 0 and spec.get("args") != "copied":
+        variants = list(reversed(variants))  # history in which everything is requested first, nothing last
     with harness.patched() as p:
         if est == "gaussian":
             harness.fast_boot_sigma(p, 100)
@@ -279,12 +316,14 @@ def child(spec):
             log.update(t=0, puts=[], files=[], sockets=[])
             c2 = copy.deepcopy(call)
             c2["save_output"] = list(so)
+            mode = spec.get("args", "copied")
+            shared_mp = None if mode == "copied" else (shared_dict if mode == "shared" else harness.OMIT)
             client = cm.ModelClient()
             tr = dict(save_output=list(so), summary=summary, election_id=el.election_id, office=el.office,
                       geo_type=el.geo_type, cwd=cwd, tables=[], n_agg=len([a for a in c2["aggregates"] if a != "unit"]))
             log["active"] = True
             try:
-                res, exc = harness.run_estimates(el, feed, c2, client=client)
+                res, exc = harness.run_estimates(el, feed, c2, client=client, shared_model_parameters=shared_mp)
                 tr["t_outcome"] = tick()
                 if exc is None and summary:
                     client.get_national_summary_votes_estimates(None, 0, c2["prediction_intervals"])
